@@ -16,6 +16,9 @@
 (*   specification classifies a call as a structural error the real call    *)
 (*   is an error too (C03).  Other disagreements with the reader            *)
 (*   specification are reported as model drift, not as violations.          *)
+(* scan event   [op |-> "scan", results, yielded, err, sticky]  extension:  *)
+(*   the Scanner wrappers over the same file must yield the leading records *)
+(*   of results and report an error iff a Read failed (drift only).         *)
 (* big event    [op |-> "big", valid, want, got]  record digests of a file  *)
 (*   too large to be judged byte by byte.                                   *)
 (***************************************************************************)
@@ -28,6 +31,12 @@ VARIABLES l, fails, drift
 Structural == {"columns", "number", "start0", "strand", "metaline", "length", "plusline", "blocks", "sequence", "tag"}
 
 IsMark(x) == "kind" \in DOMAIN x /\ x.kind \in {"err", "panic", "hang", "unspec"}
+
+\* extension: seqio.Scanner / featio.Scanner over the same reader (Scanner.tla is the state machine)
+ScanOps == INSTANCE ScannerOps WITH IsErr <- IsMark
+ScanAgrees(e) ==
+  LET o == ScanOps!ScanOutcome(e.results) IN
+  e.status = "" /\ e.yielded = o.yielded /\ e.err = o.err /\ e.sticky
 
 \* first position where specification and implementation disagree (0: none)
 RECURSIVE FirstDiff(_, _, _)
@@ -73,6 +82,10 @@ Step ==
             LET w == JudgeWrite(e) IN
             /\ fails' = IF w = "" THEN fails ELSE Append(fails, <<l, w>>)
             /\ UNCHANGED drift
+       [] e.op = "scan" ->
+            \* outside C01-C04: a disagreement is model drift, never a violation
+            /\ drift' = IF ScanAgrees(e) THEN drift ELSE Append(drift, l)
+            /\ UNCHANGED fails
        [] e.op = "bigmut" ->
             \* a large damaged file: only totality is judged
             /\ fails' = IF e.marks # <<>> THEN Append(fails, <<l, "reader panicked or hung on a large damaged file">>)
